@@ -7,9 +7,14 @@
      (5 per_theta obs)                     -> result of calculate_mse
      (6 mapping smap arity sample_id)      -> result of (sample ids, treatment id rows) of the combinatoric space
      (7 mapping smap arity nthetas rows table) -> result of (index, matrix of optional entries);
-        table = list of ((sample_id ids) values-per-theta), the stub thetas' predictions *)
+        table = list of ((sample_id ids) values-per-theta), the stub thetas' predictions
+     (8 m preds obs chains names files)    -> result of the events of analyze_model_evaluation.main (Model/CliAnalyze.v) on an
+        evaluation file holding that evaluation and --thetas files holding the posterior samples numbered in `files` (one list
+        per file, argument order); a similarity matrix is represented by the numbers of the samples it was computed from.
+        Events: (0) mkdir, (1 name samples) heat map, (2 name) / (3 name) scatter plots, (4 name percentile?) violin plot,
+        (5 name mse mse_variance inter_chain) summary; names 0..5 in the order of CliAnalyze.an_name *)
 From Coq Require Import ZArith List QArith Qcanon.
-From Batchie Require Import Lib.Sexp Lib.Num Model.Metrics Model.Synergy Model.Corr.
+From Batchie Require Import Lib.Sexp Lib.Num Lib.PyRt Model.Metrics Model.Synergy Model.Corr Model.Cli Model.CliAnalyze.
 Import ListNotations.
 Open Scope Z_scope.
 
@@ -31,6 +36,28 @@ Definition tab_f (table : list (Z * list Z * list Qc)) (th : nat) (sid : Z) (ids
   | Some r => nth th (snd r) 0%Qc
   | None => 0%Qc
   end.
+
+(* op 8: the analysis command over the Metrics model; file i of --thetas is the path [i] *)
+Definition an_name_code (n : an_name) : Z :=
+  match n with N_heat => 0 | N_scatter => 1 | N_scatter_sample => 2 | N_violin => 3 | N_violin99 => 4 | N_summary => 5 end.
+Definition of_an_event (e : an_event evaluation (list Z) (result Qc)) : sexp :=
+  match e with
+  | AnMkdir _ => SL [SZ 0]
+  | AnHeat c f => SL [SZ 1; SZ (an_name_code (snd f)); of_Zs c]
+  | AnScatter _ f => SL [SZ 2; SZ (an_name_code (snd f))]
+  | AnScatterSample _ f => SL [SZ 3; SZ (an_name_code (snd f))]
+  | AnViolin _ f p => SL [SZ 4; SZ (an_name_code (snd f)); of_option SZ p]
+  | AnSummary s f => SL [SZ 5; SZ (an_name_code (snd f)); of_result of_Qc (sum_mse s); of_result of_Qc (sum_mse_variance s);
+                         of_result of_Qc (sum_inter_chain s)]
+  end.
+Definition an_lib_metrics (ev : result evaluation) (files : list (list Z)) : an_lib unit (list Z) evaluation (list Z) (result Qc) :=
+  {| an_load_thetas := fun p => match p with [i] => match nth_error files (Z.to_nat i) with Some f => Ok f | None => Err 30 end
+                                         | _ => Err 30 end;
+     an_concat_thetas := fun l => match l with [] => Err E_VALUE | _ => Ok (List.concat l) end;
+     an_load_screen := fun _ => Ok tt;
+     an_load_eval := fun _ => ev;
+     an_correlation_matrix := fun _ th => Ok th;
+     an_mse := ev_mse; an_mse_variance := ev_mse_variance; an_inter_chain := ev_inter_chain |}.
 
 Definition run_c20 (orc : oracle) (s : sexp) : sexp :=
   match s with
@@ -88,6 +115,14 @@ Definition run_c20 (orc : oracle) (s : sexp) : sexp :=
       | Some mp, Some sm, Some a, Some nt, Some rows, Some tab =>
           of_result (fun r => SL [of_Zs (fst r); of_list (of_list (of_option of_Qc)) (snd r)])
                     (correlation_matrix orc (tab_f tab) mp sm a nt rows)
+      | _, _, _, _, _, _ => bad_input
+      end
+  | SL [SZ 8; m; p; o; c; nm; files] =>
+      match as_nat m, as_Qcm p, as_Qcs o, as_Zs c, as_Zm nm, as_Zm files with
+      | Some m, Some p, Some o, Some c, Some nm, Some files =>
+          of_result (of_list of_an_event)
+                    (cli_analyze (an_lib_metrics (mk_eval m p o c nm) files)
+                                 (mk_an_args [] [] (map (fun i => [Z.of_nat i]) (seq 0 (length files))) []))
       | _, _, _, _, _, _ => bad_input
       end
   | _ => bad_input
